@@ -31,6 +31,8 @@ pub enum IoDec {
     Pending,
     Eof,
     Err,
+    /// write only: Ok(0) for a non-empty buffer
+    Zero,
 }
 
 #[derive(Debug, Clone)]
@@ -191,7 +193,7 @@ impl Read for SimIo {
                     ctx.rec(json!({"e":"r","want":want,"got":k,"bytes":bytes}));
                     Poll::Ready(Ok(k))
                 }
-                IoDec::Pending => {
+                IoDec::Pending | IoDec::Zero => {
                     ctx.read_pending(want);
                     Poll::Pending
                 }
@@ -233,6 +235,10 @@ impl Write for SimIo {
                     ctx.rec(json!({"e":"w","len":len,"acc":k,"bytes":buf[..k]}));
                     Poll::Ready(Ok(k))
                 }
+                IoDec::Zero => {
+                    ctx.rec(json!({"e":"w","len":len,"acc":0,"bytes":[]}));
+                    Poll::Ready(Ok(0))
+                }
                 IoDec::Pending => {
                     ctx.rec(json!({"e":"wpend","len":len}));
                     Poll::Pending
@@ -258,7 +264,7 @@ impl Write for SimIo {
             }
             let view = ctx.view();
             match ctx.dir.flush(&view) {
-                IoDec::Ready(_) => {
+                IoDec::Ready(_) | IoDec::Zero => {
                     ctx.dir.flushed();
                     ctx.rec(json!({"e":"f","r":"ok"}));
                     Poll::Ready(Ok(()))
